@@ -12,7 +12,7 @@ From Coq Require Import Permutation Lia.
 From AV Require Import Base.Bytes Base.Outcome Base.Radix Hash.HashModel Tree.Heap Tree.Ops Tree.Script Tree.Inv
   Tree.InvProofsBase Tree.InvProofsCore Tree.InvProofsTree Tree.InvProofs Tree.Sort Tree.SortTiny
   Tree.SortProofsOrder Tree.SortProofsCmp Tree.SortProofsHeap Tree.SortProofsMain Tree.SortProofsLocal Tree.SortProofsCanon
-  Tree.SortProofsCore.
+  Tree.SortProofsNames Tree.SortProofsCore.
 Open Scope string_scope.
 Open Scope list_scope.
 Open Scope N_scope.
@@ -23,6 +23,60 @@ Proof. intros h. unfold ids. apply in_map_iff. exists (N.to_nat i). split; [lia 
 Definition alloc_bound (w : world) : Prop := forall i, w_nodes w i <> None -> i < w_next w.
 Lemma core_alloc_bound w : Core w -> alloc_bound w.
 Proof. intros C i h. apply (c_alloc _ C). unfold allocated. destruct (w_nodes w i) as [n |]; [eauto | congruence]. Qed.
+
+(* ------------------------------------------------------------------ findable under a file version => findable under u32::MAX *)
+(* every path that inserts a sub-element (create, copy, move, load) first looks its name up in the parent's type under the
+   version mask of a file; ElementRaw::sort looks it up under u32::MAX.  A name found under a 32-bit mask is found under
+   u32::MAX (possibly at an earlier entry), unless the wider lookup runs into a table panic. *)
+Section Mono.
+Variable T : tables.
+
+Lemma land_max v mask : v < 2 ^ 32 -> N.land v mask <> 0 -> N.land MAXV mask <> 0.
+Proof.
+  intros hv h e. apply h.
+  assert (E : N.land v MAXV = v).
+  { change MAXV with (N.ones 32). rewrite N.land_ones. apply N.mod_small. exact hv. }
+  rewrite <- E, <- N.land_assoc, e. apply N.land_0_r.
+Qed.
+
+Lemma scan_mono f start d target v (hv : v < 2 ^ 32)
+  (IHf : forall ty r, find_sub T f ty target v = Val (Some r) -> find_sub T f ty target MAXV = Val None -> False) :
+  forall k pos r, scan T f start d target v k pos = Val (Some r) -> scan T f start d target MAXV k pos = Val None -> False.
+Proof.
+  induction k as [| k IH]; intros pos r; cbn [scan]; [discriminate |].
+  destruct (subel T (start + pos)) as [[kind idx] | |]; cbn [bind]; try discriminate.
+  destruct (kind =? 0).
+  - destruct (elem T idx) as [e | |]; cbn [bind]; try discriminate.
+    destruct (vinfo T (dt_sub_ver d + pos)) as [mask | |]; cbn [bind]; try discriminate.
+    destruct (ed_name e =? target) eqn:En; cbn [andb].
+    + destruct (N.land v mask =? 0) eqn:Ev; cbn [negb].
+      * destruct (N.land MAXV mask =? 0); cbn [negb]; [apply IH |].
+        intros _. destruct (et_new T idx); cbn [bind]; discriminate.
+      * apply N.eqb_neq in Ev. apply (land_max v mask hv) in Ev. apply N.eqb_neq in Ev. rewrite Ev. cbn [negb].
+        intros _. destruct (et_new T idx); cbn [bind]; discriminate.
+    + apply IH.
+  - destruct (find_sub T f idx target v) as [[[et ixs] |] | |] eqn:Ev; try discriminate.
+    + intros _. destruct (find_sub T f idx target MAXV) as [[[et' ixs'] |] | |] eqn:Em; try discriminate.
+      intros _. eapply IHf; eauto.
+    + destruct (find_sub T f idx target MAXV) as [[[et' ixs'] |] | |]; try discriminate. apply IH.
+Qed.
+
+Theorem find_sub_mono f : forall ty target v r, v < 2 ^ 32 ->
+  find_sub T f ty target v = Val (Some r) -> find_sub T f ty target MAXV = Val None -> False.
+Proof.
+  induction f as [| f IH]; intros ty target v r hv; [discriminate |].
+  rewrite !find_sub_scan. destruct (sub_slice T ty) as [[[start stop] d] | |]; cbn [bind]; try discriminate.
+  apply scan_mono; auto. intros ty' r'. apply IH; auto.
+Qed.
+
+(* findable under a 32-bit version mask, and the lookup under u32::MAX does not panic: findable under u32::MAX *)
+Corollary findable_mono ty target v r : v < 2 ^ 32 ->
+  find_sub_element T ty target v = Val (Some r) -> (exists r', find_sub_element T ty target MAXV = Val r') ->
+  exists et idx, find_sub_element T ty target MAXV = Val (Some (et, idx)).
+Proof.
+  intros hv H [r' H']. destruct r' as [[et idx] |]; [eauto |]. exfalso. eapply find_sub_mono; eauto.
+Qed.
+End Mono.
 
 Section Hist.
 Variable T : tables.
